@@ -2,15 +2,18 @@
 import asyncio
 import random
 
+import monitors
 import scenario as S
 from sim import run_scenario
 
 from .base import Result, V
 from . import simcommon as SC
 
-MODULES = ["TickitModel.Props.C12", "TickitModel.Props.C12Run"]
+MODULES = ['TickitModel.Props.C12Cost', "TickitModel.Props.C12", "TickitModel.Props.C12Run"]
 THEOREMS = ["never_early", "exact_when_free", "late_immediate", "stamp_law", "interrupt_due_now", "linear_step_callback", "linear_step_interrupt",
-            "run_never_early", "run_step_law", "run_linear_law", "run_linear_exact_of_dvd", "run_linear_exact", "run_stamp_law", "stamp_written"]
+            "run_never_early", "run_step_law", "run_linear_law", "run_linear_exact_of_dvd", "run_linear_exact", "run_stamp_law", "stamp_written",
+            "masterRunC_zero_cost", "masterInitialC_zero_cost", "zero_cost_instance", "runC_linear_law_zero_cost", "runC_never_early", "runC_step_computed", "runC_step_zero_cost",
+            "runC_never_ahead", "runC_lag_bound_of_mono", "runC_lag_bound", "runC_lag_simtime", "runC_linear_exact_of_dvd", "runC_linear_exact", "stampC_written", "runC_stamp_law", "runC_stamp_formula", "runC_stim_now"]
 ANCHORS = ["src/tickit/core/management/schedulers/master.py"]
 TECHNIQUE = "Lean 4 theorems (exact integer/rational arithmetic of sleep_time and the interrupt stamp: never early for any processing cost, exact when free, stamp = floor law, linear law by induction) + differential run of MasterScheduler.sleep_time / schedule_interrupt and whole-simulation timing under a virtual clock against the model"
 LEVEL_TEXT = ("Full-strength theorems over the pacing model for every positive rational speed, all times and all processing costs: the tick for t is due "
@@ -19,7 +22,7 @@ LEVEL_TEXT = ("Full-strength theorems over the pacing model for every positive r
               "simTime - t0 = speed*(real - r0) is preserved by callback and interrupt ticks (integral products). RUN LEVEL (Props/C12Run, whole-simulation model at zero processing cost, any configuration and depth, with stimuli): at every tick simulation time is never ahead of real time - between consecutive ticks and cumulatively from the start (run_never_early); with callbacks only it lags by at most k*(num-1)/num ns after k ticks (each sleep is rounded up to a whole ns; the bound is attained) and the law is EXACT when the waits are integral, e.g. for every speed 1/den (run_linear_law, run_linear_exact); every handled stimulus is stamped by the stamp law, never ahead of real time, and the next tick starts at the very real time it arrived - its own tick with the interrupting component as a root, or the tick of an earlier wakeup (run_stamp_law). Tied to master.py by (i) a "
               "differential run of the real sleep_time / schedule_interrupt on generated (when, ticker.time, last_time, now, speed) with dyadic speeds "
               "and (ii) whole simulations under the virtual clock, with and without processing cost, whose tick start times must equal the model's. "
-              "Float rounding of the real computation is outside the model (inputs are chosen so that the floats are exact).")
+              "Float rounding of the real computation is outside the model (inputs are chosen so that the floats are exact). WITH ARBITRARY PROCESSING COSTS (Core/SimCost: the master loop in which the k-th tick takes cost k ns of real time and a stimulus arriving during a tick is stamped relative to that tick's start; Props/C12Cost): with all costs 0 it IS the zero-cost model (masterRunC_zero_cost); for every configuration, speed, cost function and stimuli a tick never starts before the previous one ended plus ceil(dt*den/num) unless it is overdue, in which case it starts at once, exactly as sleep_time computes it (runC_never_early, runC_step_computed); simulation time never runs ahead of scaled real time (runC_never_ahead) and lags it by the accumulated costs scaled by the speed plus at most k*(num-1)/den of rounding - bounds that are attained (runC_lag_bound, runC_lag_simtime, runC_linear_exact); every handled stimulus obeys the floor law relative to the end of the last tick (between ticks) or to the start of the tick in progress (mid-tick) (runC_stamp_law, runC_stamp_formula). The cost model is compared with the real scheduler on generated flat runs with per-update costs, speeds 1, 2, 1/2, 4, 1/4, 3/2 and stimuli between and in the middle of ticks (tick times, real start times and roots must be equal; stimuli raised at exactly the clock reading of a tick boundary are excluded: the code goes by event order there, the model by the clock).")
 LEVEL_NOTE = "Trusts: Lean kernel; hand-written pacing model; the virtual-clock loop (quantised to integer ns); float arithmetic of sleep_time is exact only for dyadic speeds and times < 2^53 ns (generator restriction, stated in DESIGN.md)."
 ASSUMPTIONS = ["speeds are positive dyadic rationals in the runs", "interrupts are compared when they arrive between ticks; mid-tick arrival is C07's subject"]
 SPEEDS = [[1, 1], [2, 1], [1, 2], [4, 1], [1, 4], [8, 1]]
@@ -117,6 +120,22 @@ def midtick_scenarios(rng, tier):
     return out
 
 
+def cost_scenarios(rng, tier):
+    """flat chains with per-update processing costs, speeds != 1, stimuli between ticks and in the middle of ticks, on the
+    quiet device and on the periodic one (whose pending callback is not displaced)"""
+    from .c07 import dev
+    out = []
+    for _ in range(30 if tier == "quick" else 300):
+        num, den = rng.choice(([1, 1], [2, 1], [1, 2], [4, 1], [1, 4], [3, 2]))
+        P = rng.choice((5, 8, 13)) * 1_000_000 * num
+        c = rng.choice((100_000, 700_000, 2_000_000))
+        nst = rng.randrange(1, 5)
+        stims = sorted([{"real": rng.randrange(1, 40) * 777_001 + rng.randrange(1000), "comp": rng.choice(("x", "x", "p", "r"))} for _ in range(nst)], key=lambda s_: s_["real"])
+        out.append({"components": [dev("p", cb={"kind": "period", "p": P}, cost=c), dev("q", {"i": ["p", "o"]}, cost=c), dev("r", {"i": ["q", "o"]}, cost=c // 2), dev("x", cost=0)],
+                    "speed": [num, den], "n_ticks": rng.randrange(4, 8), "stims": stims, "max_steps": 6000})
+    return out
+
+
 def early_scenarios():
     from .c07 import dev
     out = []
@@ -134,6 +153,19 @@ def early_scenarios():
     return out
 
 
+
+def clock_tie(run_):
+    """a stimulus raised at exactly the clock reading at which a master tick ended, or at which a tick had already
+    started: the code goes by event order there, the cost model by the clock"""
+    mt_ = monitors.master_tid(run_)
+    dones = [(e["real"], e["n"]) for e in run_["trace"].of("t-done") if e["tid"] == mt_]
+    calls = [(e["real"], e["n"]) for e in run_["trace"].of("t-call") if e["tid"] == mt_]
+    rs = run_["trace"].of("raise")
+    # raised before the tick's end was recorded, at the same clock reading (code: mid-tick, model: after the tick), or
+    # after a tick had started at the same clock reading (code: mid-tick at +0, model: before the tick)
+    return any(r["real"] == real and r["n"] < n for r in rs for real, n in dones) or any(r["real"] == real and n < r["n"] for r in rs for real, n in calls)
+
+
 def run(tier, seed, drv):
     res = Result()
     rng = random.Random(seed)
@@ -143,11 +175,17 @@ def run(tier, seed, drv):
         res.count("early-interrupt-nonzero-t0")
         SC.check_run(scn, run_, drv, res, monitors_on=("pacing", "tick_times", "linear_law") + (("interrupt_stamp", "interrupts") if scn.get("monitor_stamps") else ()),
                      corr=("ticker",), case_extra={"bus": "sync"})
-    for scn in midtick_scenarios(rng, tier):
+    n_mid = len(midtick_scenarios(rng, tier))
+    for k_, scn in enumerate(midtick_scenarios(rng, tier) + cost_scenarios(rng, tier)):
         run_ = run_scenario(scn, bus="sync")
         res.case(SC.scn_key(scn), nontrivial=True)
         res.count("mid-tick-interrupt")
-        SC.check_run(scn, run_, drv, res, monitors_on=("pacing", "interrupt_stamp", "interrupts"), corr=(), case_extra={"bus": "sync"})
+        # flat, with costs: the whole run (tick times, real start times, roots - hence every stamp) against the cost model
+        costable = not clock_tie(run_)
+        res.count("cost-model-compared" if costable else "cost-model-not-applicable")
+        # (the generated cost scenarios stop after a fixed number of ticks, possibly before a late stimulus is served: no service monitor there)
+        SC.check_run(scn, run_, drv, res, monitors_on=("pacing", "interrupt_stamp") + (("interrupts",) if k_ < n_mid else ()), corr=("ticks",) if costable else (), case_extra={"bus": "sync"},
+                     with_real=costable, with_costs=costable)
     pacing_diff(rng, 400 if tier == "quick" else 5000, drv, res)
     for i, scn in enumerate(SC.corpus_scenarios() + timed_scenarios(rng, tier)):
         SC.stats_into(res, scn)
@@ -157,8 +195,12 @@ def run(tier, seed, drv):
                  sample={"scenario": scn} if i < 1 else None)
         res.count("zero-cost" if zero_cost else "with-cost")
         res.count("with-interrupts" if scn.get("stims") else "callbacks-only")
-        SC.check_run(scn, run_, drv, res, monitors_on=("pacing", "interrupt_stamp"), corr=("ticks",) if zero_cost else (),
-                     case_extra={"bus": "sync"}, with_real=zero_cost)
+        # with processing costs the run is compared with the cost model (Core/SimCost): flat configurations, no stimulus
+        # exactly at the end instant of a tick (there the code goes by event order, the model by the clock)
+        costable = (not zero_cost) and not S.systems(scn) and not clock_tie(run_)
+        res.count("cost-model-compared" if costable else ("cost-model-not-applicable" if not zero_cost else "zero-cost-model"))
+        SC.check_run(scn, run_, drv, res, monitors_on=("pacing", "interrupt_stamp"), corr=("ticks",) if (zero_cost or costable) else (),
+                     case_extra={"bus": "sync"}, with_real=zero_cost or costable, with_costs=costable)
     res.rule = ("(i) generated (when, ticker.time, last_time, now, speed) tuples, dyadic speeds 1/4..8, fed to the real MasterScheduler.sleep_time and "
                 "schedule_interrupt with a patched clock and compared with the Lean arithmetic; (ii) generated flat/nested simulations with those speeds, "
                 "non-zero initial times, callbacks, interrupts between ticks, with and without per-update processing cost, run under the virtual clock: "
